@@ -177,6 +177,8 @@ type history struct {
 	epoch map[string]int // feed route -> epoch of the content it serves
 	log   []string       // what happened so far (the replayable history)
 	forced map[int][]string // run -> routes that fail in that run whatever the dice say
+	forcedNet map[int][]string // run -> routes whose request fails (connection reset) in that run
+	changed   map[int][]string // run -> ecosystems that republish in that run whatever the dice say
 }
 
 func (hy *history) logf(f string, a ...any) { hy.log = append(hy.log, fmt.Sprintf(f, a...)) }
@@ -224,7 +226,7 @@ func (hy *history) feeds(run int, changed map[string]bool) {
 	et := fmt.Sprintf(`"e%d"`, run)
 	if changed["alpine"] {
 		for _, x := range hy.rels {
-			if x.eco != "alpine" {
+			if x.eco != "alpine" || !x.listed(run) {
 				continue
 			}
 			dir := "v" + x.rel
@@ -317,6 +319,9 @@ func (hy *history) pickFaults(run int) map[string]fault {
 	for _, k := range hy.forced[run] {
 		out[k] = randFault(rn)
 	}
+	for _, k := range hy.forcedNet[run] {
+		out[k] = fault{net: true}
+	}
 	if run == 1 && rn.Chance(2, 3) {
 		return out // most histories start with a clean run
 	}
@@ -359,6 +364,15 @@ func (hy *history) run(ctx context.Context, run int) {
 	}
 	if len(hy.forced[run]) > 0 {
 		changed["debian"] = true
+	}
+	for _, e := range hy.changed[run] {
+		changed[e] = true
+	}
+	// a release that enters the alpine mirror comes with a new stamp
+	for _, x := range hy.rels {
+		if x.eco == "alpine" && x.listedFrom == run && run > 1 {
+			changed["alpine"] = true
+		}
 	}
 	hy.feeds(run, changed)
 	faults := hy.pickFaults(run)
@@ -416,6 +430,24 @@ func (hy *history) run(ctx context.Context, run int) {
 			// not list this release (any more), or its Release file has never
 			// been read: nothing is demanded
 			x.expect = 0
+		}
+	}
+	// a run without any transient fault brings the store up to date: every
+	// release the mirrors list has its current feed stored
+	if len(faults) == 0 {
+		r.Count("history:fault-free-run")
+		for _, x := range hy.rels {
+			if !x.listed(run) || x.expect == hy.epoch[x.feed] {
+				continue
+			}
+			msg := fmt.Sprintf("history %d %s release=%s run=%d: history [%s]: the run had no transient fault, the mirror lists the release, and the store does not hold the release's current feed (epoch %d; the updater %s last stored epoch %d)",
+				hy.id, x.eco, x.rel, run, strings.Join(hy.log, " | "), hy.epoch[x.feed], x.updater, x.expect)
+			if x.eco == "debian" && hy.st.stored(x.updater) != run {
+				// the tracker was not republished since the operation that left the release out
+				r.Fail("debian-release-fault-drops", msg+" (the tracker feed has not changed since the operation that left the release out)")
+				continue
+			}
+			r.Fail("", msg)
 		}
 	}
 	// the statement, on every image
@@ -510,7 +542,7 @@ func (h *harness) sectionHistory() {
 
 	nh, nr := h.cfg.N(3, 24), h.cfg.N(6, 10)
 	for hi := 0; hi < nh && !r.Stop(); hi++ {
-		hy := &history{id: hi, h: h, w: newWorld(), st: newHistStore(), epoch: map[string]int{}, forced: map[int][]string{}}
+		hy := &history{id: hi, h: h, w: newWorld(), st: newHistStore(), epoch: map[string]int{}, forced: map[int][]string{}, forcedNet: map[int][]string{}, changed: map[int][]string{}}
 		hy.w.conditional = true
 		tag := freshTag()
 		for _, a := range alps {
@@ -520,6 +552,26 @@ func (h *harness) sectionHistory() {
 			}
 			hy.rels = append(hy.rels, &histRelease{eco: "alpine", rel: a.rel, updater: "alpine-main-" + dir + "-updater",
 				feed: "alpine.test/" + dir + "/main.json", listedFrom: 1, pair: apkP, ir: a.ir})
+		}
+		// the next minor after the last fixture release enters the mirror in run
+		// 3, in a run in which a request of the walk fails
+		if len(alps) > 1 {
+			last := alps[len(alps)-2] // the one before edge
+			for _, a := range alps {
+				if a.rel != "edge" && alpLess(last.rel, a.rel) {
+					last = a
+				}
+			}
+			if next, files := nextAlpine(h, last.rel, apkP); next != "" {
+				if ir := index("alpine "+next, files); ir != nil {
+					hy.rels = append(hy.rels, &histRelease{eco: "alpine", rel: next, updater: "alpine-main-v" + next + "-updater",
+						feed: "alpine.test/v" + next + "/main.json", listedFrom: 3, pair: apkP, ir: ir})
+					if hi < 2 {
+						hy.forcedNet[3] = []string{"alpine.test/v" + last.rel + "/"}
+						hy.changed[3] = []string{"alpine"}
+					}
+				}
+			}
 		}
 		debP, ubP, pyP := h.genPair("deb"), h.genPair("deb"), h.genPair("sem")
 		nd := 3 + h.rnd.Intn(2)
@@ -873,3 +925,40 @@ func (h *harness) knownDebianFault() {
 	delete(w.faults, relKey)
 }
 
+
+func alpLess(a, b string) bool {
+	pa, pb := strings.Split(a, "."), strings.Split(b, ".")
+	if len(pa) != 2 || len(pb) != 2 {
+		return false
+	}
+	a0, _ := strconv.Atoi(pa[0])
+	a1, _ := strconv.Atoi(pa[1])
+	b0, _ := strconv.Atoi(pb[0])
+	b1, _ := strconv.Atoi(pb[1])
+	return a0 < b0 || (a0 == b0 && a1 < b1)
+}
+
+// nextAlpine: the image of the minor release after rel (the fixture of rel
+// with the version replaced).
+func nextAlpine(h *harness, rel string, p pkgPair) (string, map[string][]byte) {
+	parts := strings.Split(rel, ".")
+	if len(parts) != 2 {
+		return "", nil
+	}
+	min, err := strconv.Atoi(parts[1])
+	if err != nil {
+		return "", nil
+	}
+	next := parts[0] + "." + strconv.Itoa(min+1)
+	for _, e := range h.fx.Dirs["alpine"] {
+		if e.Release != rel {
+			continue
+		}
+		files := map[string][]byte{"lib/apk/db/installed": apkDB(p)}
+		for _, f := range e.Files {
+			files[f[0]] = []byte(strings.ReplaceAll(f[1], rel, next))
+		}
+		return next, files
+	}
+	return "", nil
+}
